@@ -3523,11 +3523,59 @@ def gen_c15any(read, num):
     return lines, broken
 
 
+def gen_registry(read, num):
+    """C18 name lifecycle: the order in which the functions of `ProcessRegistry` take their two locks and what they do under
+    them.  The models treat `register` and `remove` as the code has them: `register` checks that the process is in the
+    registry WHILE it holds the names (so that the sweep of `remove` cannot fall between check and claim), `remove` drops
+    the process first and sweeps its names afterwards.  Each function becomes the list of its events in source order:
+    `hold:<table>.<mode>` (guard bound by `let`, held to the end of the function), `temp:<table>.<mode>` (guard of one
+    statement), `check-live` (contains_key), `claim-name` (entry / insert on the names), `drop-process` (remove),
+    `sweep-names` (retain)."""
+    broken, lines = [], []
+    src = read("crates/edp_node/src/registry.rs")
+    out = {}
+    for fn in ("register", "remove", "unregister", "whereis"):
+        body = _fn_body(src, r"pub\s+async\s+fn\s+" + fn + r"\s*\(") if src else None
+        if body is None:
+            broken.append(f"registry.rs: fn {fn} not found")
+            out[fn] = []
+            continue
+        body = re.sub(r"//[^\n]*", "", body)
+        ev = []
+        pats = [
+            (r"let\s+(?:mut\s+)?\w+\s*=\s*self\s*\.\s*(by_name|by_pid)\s*\.\s*(read|write)\s*\(\s*\)\s*\.\s*await\s*;", lambda m: f"hold:{m.group(1)}.{m.group(2)}"),
+            (r"self\s*\.\s*(by_name|by_pid)\s*\.\s*(read|write)\s*\(\s*\)\s*\.\s*await", lambda m: f"temp:{m.group(1)}.{m.group(2)}"),
+            (r"\.\s*contains_key\s*\(", lambda m: "check-live"),
+            (r"\.\s*entry\s*\(", lambda m: "claim-name"),
+            (r"\.\s*retain\s*\(", lambda m: "sweep-names"),
+            (r"\.\s*remove\s*\(", lambda m: "drop"),
+            (r"\.\s*get\s*\(", lambda m: "look-up"),
+        ]
+        found = []
+        for pat, mk in pats:
+            for m in re.finditer(pat, body):
+                found.append((m.start(), m.end(), mk(m)))
+        found.sort()
+        last_end = -1
+        for a, b, t in found:
+            if t.startswith("temp:") and any(a2 <= a and b <= b2 and t2.startswith("hold:") for a2, b2, t2 in found):
+                continue   # the temp pattern also matches inside a let-bound acquisition
+            ev.append(t)
+        out[fn] = ev
+    def strs(xs):
+        return "[" + ", ".join('"' + x + '"' for x in xs) + "]"
+    for fn in ("register", "remove", "unregister", "whereis"):
+        lines.append(f"/-- events of `ProcessRegistry::{fn}` in source order (crates/edp_node/src/registry.rs) -/")
+        lines.append(f"def REGISTRY_{fn.upper()}_EVENTS : List String := {strs(out[fn])}")
+    lines.append("")
+    return lines, broken
+
+
 def run(read, emit, num):
     """One generated module per part (`Generated/Misc<Part>.lean`), so that a change of the source rebuilds only the models
     and theorems that read that part; `Generated/Misc.lean` imports them all (for convenience; nothing in the library
     imports it). A part may use the definitions of an earlier part: it then imports that part's module."""
-    parts = (gen_c16, gen_c09, gen_c04, gen_c15, gen_c13, gen_c18, gen_c19, gen_state, gen_c20, gen_c05, gen_c08, gen_c10, gen_c11, gen_c07, gen_c14, gen_c16b, gen_c02, gen_c01, gen_c17, gen_c06, gen_mailbox, gen_c04conn, gen_c15any)
+    parts = (gen_c16, gen_c09, gen_c04, gen_c15, gen_c13, gen_c18, gen_c19, gen_state, gen_c20, gen_c05, gen_c08, gen_c10, gen_c11, gen_c07, gen_c14, gen_c16b, gen_c02, gen_c01, gen_c17, gen_c06, gen_mailbox, gen_c04conn, gen_c15any, gen_registry)
     defined = {}   # generated name -> module that defines it
     mods = []
     for part in parts:
